@@ -15,6 +15,20 @@ func ParseQuery(query string, separator byte) map[string][]string {
 
 func doParseQuery(query string, separator byte, urlUnescape bool) map[string][]string {
 	m := make(map[string][]string)
+	parsePairs(query, separator, urlUnescape, func(key, value string) {
+		m[key] = append(m[key], value)
+	})
+	return m
+}
+
+// ParsePairs calls fn for every name/value pair of the URL-encoded query string, in the order
+// in which the pairs appear. Callers that feed collections use it instead of ranging over the
+// map returned by ParseQuery, whose iteration order changes from run to run.
+func ParsePairs(query string, separator byte, fn func(key, value string)) {
+	parsePairs(query, separator, true, fn)
+}
+
+func parsePairs(query string, separator byte, urlUnescape bool, fn func(key, value string)) {
 	for query != "" {
 		key := query
 		if i := strings.IndexByte(key, separator); i >= 0 {
@@ -33,9 +47,8 @@ func doParseQuery(query string, separator byte, urlUnescape bool) map[string][]s
 			key = queryUnescape(key)
 			value = queryUnescape(value)
 		}
-		m[key] = append(m[key], value)
+		fn(key, value)
 	}
-	return m
 }
 
 // queryUnescape is a non-strict version of net/url.QueryUnescape.
